@@ -80,6 +80,7 @@ func c10Args(maxN int) py.Tuple {
 }
 
 //verif:property C10
+//verif:timeout 600 3600
 //verif:maxpaths 600000 8000000
 //verif:runinit github.com/go-python/gpython/py.init@type.go:1 github.com/go-python/gpython/py.init@exception.go:1
 //verif:havoc math.Pow math.Mod math/cmplx.Pow math.Exp math.Log math.Sincos math.Sin math.Cos math.Atan2
@@ -87,18 +88,26 @@ func c10Args(maxN int) py.Tuple {
 func VerifC10BuiltinCalls() {
 	m := c10Builtins()
 	fn := c10Callable(m)
-	args := c10Args(verifBound(2, 3))
+	var args py.Tuple
+	if verifBound(0, 1) == 0 && verifChoice("three_scalars", 2) == 1 {
+		// quick tier: three arguments are explored over the scalar kinds only (thorough: any kinds for the first two)
+		args = py.Tuple{py.VerifC10Scalar("arg0"), py.VerifC10Scalar("arg1"), py.VerifC10Scalar("arg2")}
+	} else {
+		args = c10Args(verifBound(2, 3))
+	}
 	// divmod/pow of two symbolic integers: non-linear; VerifC10IntArith / VerifC10IntPow (and C07) cover those operators
 	if k := verifChoiceOf("callable"); (k == 8 || k == 21) && len(args) >= 2 && py.VerifC10IsInt(args[0]) && py.VerifC10IsInt(args[1]) {
 		return
 	}
 	_, _ = py.Call(fn, args, nil)
 	verifReach("called")
+	verifAssert(true, "the operation came back (value or error) without a Go panic, for every value of the symbolic operands on this path")
 }
 
 // one keyword argument, at most one positional argument
 //
 //verif:property C10
+//verif:timeout 600 3600
 //verif:maxpaths 600000 8000000
 //verif:runinit github.com/go-python/gpython/py.init@type.go:1 github.com/go-python/gpython/py.init@exception.go:1
 //verif:havoc math.Pow math.Mod math/cmplx.Pow math.Exp math.Log math.Sincos math.Sin math.Cos math.Atan2
@@ -108,7 +117,8 @@ func VerifC10BuiltinKeywords() {
 	fn := c10Callable(m)
 	args := c10Args(1)
 	names := []string{"key", "reverse", "base", "default", "start", "x", "real", "imag", "encoding", "object"}
-	kw := py.StringDict{names[verifChoice("kwname", len(names))]: py.VerifC10Scalar("kwval")}
+	kw := py.StringDict{names[verifChoice("kwname", verifBound(5, len(names)))]: py.VerifC10Scalar("kwval")}
 	_, _ = py.Call(fn, args, kw)
 	verifReach("called")
+	verifAssert(true, "the operation came back (value or error) without a Go panic, for every value of the symbolic operands on this path")
 }
